@@ -90,6 +90,9 @@ def execute(stim):
             def init_regular(self):
                 if fault == 'init_regular':
                     raise fire('init_regular', b, True)
+                if fault == 'init_regular_once' and not getattr(self, '_failed_once', False):
+                    self._failed_once = True        # a transient failure: a second call would succeed
+                    raise fire('init_regular', b, True)
                 return super().init_regular()
         if getattr(cls, 'stop_async', None) is not edzed.SBlock.stop_async and issubclass(cls, edzed.AddonAsync):
             orig = cls.stop_async
@@ -323,7 +326,8 @@ def execute(stim):
         except edzed.EdzedInvalidState:
             outcome = 'invalid'
         except Boom:
-            outcome = 'delivered'       # the handler ran (and failed)
+            # the handler ran and failed - or the early initialisation of the destination failed
+            outcome = 'delivered' if st['got'] is not None else 'initfail'
         except Exception as err:
             outcome = 'other:' + type(err).__name__
         got = st['got']
@@ -356,7 +360,15 @@ def execute(stim):
             done = asyncio.Event()
             bg = []
 
+            async def watch_init():
+                try:
+                    await circuit.wait_init()
+                except BaseException:
+                    return
+                rec('inited')
+
             async def actions():
+                bg.append(asyncio.create_task(watch_init()))
                 for op in stim['actions']:
                     delay = st['t0'] + op['t'] * TICK - loop.time()
                     if delay > 0:
